@@ -9,12 +9,13 @@
      (b)  32-byte in-place header writes below the end of the file: a CRC-consistent chunk header image whose bytes
           8..27 (item_prev, tag, rsv0, chunk_meta, payload_length, payload_prev_length) are those of a CRC-valid
           header that stood at this offset in the file or in one of its earlier versions during this open - i.e.
-          nothing but item_next and crc32 differs (strict = false also admits bytes 8..27 all zero: see
+          nothing but item_next and crc32 differs (strict = false also accepts bytes 8..27 all zero: see
           C03_repair_zero_header_refuted in Properties_C03_repair.v),
      (c)  in-place writes of the payload of a TRACK_*_HEAD chunk (at most 128 bytes at o + 32 where a CRC-valid
           header with that payload_length stands / stood at o, and where the file given to the open has a header of
           chunk kind HEAD - tag & 7 = 1, the test of jls_core_scan_signals - with payload_length 128, the chunk
-          lying completely inside the file) immediately followed by zero pad + CRC of exactly those bytes,
+          lying completely inside the file; strict = true: exactly 128 bytes) immediately followed by zero pad +
+          CRC of exactly those bytes,
      (d)  appends at exactly the current end of the file of complete chunks: a 32-byte CRC-valid header with
           item_next = 0 and tag FSR INDEX or FSR SUMMARY, then a non-empty payload whose length is the header's
           payload_length field, then zero pad + CRC; or the 32 bytes of an END chunk header (payload_length 0),
@@ -171,8 +172,8 @@ Definition rw_is_link (strict : bool) (hist : list (list N)) (n off : N) (b : li
   let rest := fm_sub 8 20 b in
   negb (off =? 0) && (off + 32 <=? n) && fm_list_eqb b (rw_hdr_bytes (firstn 8 b) rest)
   && (rw_seen hist off rest || (negb strict && fm_list_eqb rest (rw_rest wm_hdr0))).
-Definition rw_is_tbl (hist : list (list N)) (n off : N) (b : list N) : bool :=
-  (32 <? off) && (off + 136 <=? n) && (rp_len b <=? SIZEOF_track_head)
+Definition rw_is_tbl (strict : bool) (hist : list (list N)) (n off : N) (b : list N) : bool :=
+  (32 <? off) && (off + 136 <=? n) && (if strict then rp_len b =? SIZEOF_track_head else rp_len b <=? SIZEOF_track_head)
   && rw_seen_pl hist (off - 32) (rp_len b) && rw_seen_head hist (off - 32).
 Definition rw_is_app (b : list N) : option rw_stage :=
   match fm_decode_chunk_header b with
@@ -218,7 +219,7 @@ Definition rw_next (strict : bool) (f : list N) (pos : N) (st : rw_st) (e : wm_e
       rw_opt ((off =? 0) && fm_list_eqb b (wm_file_header_bytes n)) RwDone
       ++ (if off =? n then match rw_is_app b with Some s => [s] | None => [] end else [])
       ++ rw_opt (rw_is_link strict (rw_hist st) n off b) RwIdle
-      ++ rw_opt (rw_is_tbl (rw_hist st) n off b) (RwTbl (off - 32) b)
+      ++ rw_opt (rw_is_tbl strict (rw_hist st) n off b) (RwTbl (off - 32) b)
     | RwHdr pl => rw_opt ((off =? n) && negb (rp_len b =? 0) && (pl =? rp_len b mod 4294967296)) (RwPay b)
     | RwPay p => rw_opt ((off =? n) && fm_list_eqb b (wm_footer (rp_len p) (crc32c p))) RwIdle
     | RwTbl o p => rw_opt ((off =? o + 32 + rp_len p) && fm_list_eqb b (wm_footer (rp_len p) (crc32c p))) RwIdle
@@ -291,15 +292,24 @@ Proof.
   apply andb_true_iff in H. destruct H as [H1 H2]. rewrite H1. cbn [andb].
   apply orb_true_iff in H2. destruct H2 as [H2 | H2]; [rewrite H2; reflexivity | discriminate H2].
 Qed.
+Lemma rw_is_tbl_strict : forall hist n off b, rw_is_tbl true hist n off b = true -> rw_is_tbl false hist n off b = true.
+Proof.
+  intros hist n off b H. unfold rw_is_tbl in *.
+  apply andb_true_iff in H. destruct H as [H H5]. apply andb_true_iff in H. destruct H as [H H4].
+  apply andb_true_iff in H. destruct H as [H H3]. rewrite H, H4, H5. cbn [andb].
+  apply N.eqb_eq in H3. rewrite H3. reflexivity.
+Qed.
 Lemma rw_next_strict : forall f pos st e s, In s (rw_next true f pos st e) -> In s (rw_next false f pos st e).
 Proof.
   intros f pos st e s H. destruct e as [off b | len |]; cbn [rw_next] in *; try exact H.
   destruct (rw_stg st); try exact H.
   apply in_app_or in H. apply in_or_app. destruct H as [H | H]; [left; exact H | right].
   apply in_app_or in H. apply in_or_app. destruct H as [H | H]; [left; exact H | right].
-  apply in_app_or in H. apply in_or_app. destruct H as [H | H]; [left | right; exact H].
-  unfold rw_opt in *. destruct (rw_is_link true (rw_hist st) (rw_n st) off b) eqn:E; [| destruct H].
-  rewrite (rw_is_link_strict _ _ _ _ E). exact H.
+  apply in_app_or in H. apply in_or_app. destruct H as [H | H]; [left | right].
+  - unfold rw_opt in *. destruct (rw_is_link true (rw_hist st) (rw_n st) off b) eqn:E; [| destruct H].
+    rewrite (rw_is_link_strict _ _ _ _ E). exact H.
+  - unfold rw_opt in *. destruct (rw_is_tbl true (rw_hist st) (rw_n st) off b) eqn:E; [| destruct H].
+    rewrite (rw_is_tbl_strict _ _ _ _ E). exact H.
 Qed.
 Lemma rw_runs_strict : forall f pos l st st', In st' (rw_runs true f pos st l) -> In st' (rw_runs false f pos st l).
 Proof.
